@@ -526,6 +526,7 @@ PROPS["C18"] = {
         "Lace.C18.split_comma_spec",
         "Lace.C18.flag_irrelevant_cli",
         "Lace.C18.flag_off_cli_rejects",
+        "Lace.C18.flag_position_irrelevant",
         "Lace.C02.execute_eq_isa",
         "Lace.C02.stack_off_stops",
     ],
@@ -548,7 +549,8 @@ PROPS["C18"] = {
              "pairs, CALL/RETS, junk in unused bits), the structured terminating programs and random images of C03; spec "
              "line: the flag-off run fetches no 0xD word => off = on = reference machine, otherwise off = exit 1. "
              "P18 (process mode): `lace check|compile|run f.asm [--minimal]` with the option absent, `-f stack`, `-f \"\"`, "
-             "`-f stack,stack`, `-f foo`, `--features stack`, `--features=stack`, `-fstack`, `-f ,stack,`, `-f Stack` ... "
+             "`-f stack,stack`, `-f foo`, `--features stack`, `--features=stack`, `-fstack`, `-f ,stack,`, `-f Stack` ..., and the option written BEFORE the "
+             "subcommand (`lace -f stack run f.asm`: spec line = what the same option does after it) or both before and after "
              "on programs with / without the mnemonics and with raw 0xD words reached / not reached / stored at run "
              "time: exit status, stdout, bytes of out.lc3, and whether stderr contains the word `stack` when the "
              "status is 1. Non-trivial: every non-empty text; every run that executes an instruction or is refused by "
